@@ -21,7 +21,7 @@ for pid in ALL:
         "evidence_file": "evidence/%s.json" % pid,
         "replay_cmd_template": "./check %s --replay {path}" % pid,
         "engine": "+".join(k for k, v in P["units"].items() if v),
-        "level_claimed": {"category": "proof", "text": P["claim"], "design_ref": P.get("design_ref", "DESIGN.md section 5")},
+        "level_claimed": {"category": P.get("category", "proof"), "text": P["claim"], "design_ref": P.get("design_ref", "DESIGN.md section 5")},
         "level_note": P["level_note"],
         "technique": P["technique"],
     })
